@@ -626,9 +626,11 @@ theorem attr_order_irrelevant (s : PS) {l₁ l₂ : List Attr} (hp : l₁.Perm l
 -- Converse, for a fragment (`Lemmas/JudgeConverse.lean`): **`judge_hard_error_rejected`** — clean items up to a position, then an item with a
 --   hard error of `HardFlag` (unknown element; anchor/guideline/image/note in format 1; unknown attribute on advance, unicode, anchor,
 --   guideline, image; lib not a dictionary) ⇒ rejected; `hardFlag_flagged`: each of these is an item `judge` flags.
--- OPEN (converse): the other clause families at document level (duplicates, identifier clashes, required attributes, value errors,
---   errors inside `outline`), which need lower bounds on the state after a clean prefix.
---   and format 1.  Earlier note, kept:
+-- (was OPEN, converse) the other clause families at document level (duplicates, identifier clashes, required attributes, value errors,
+--   errors inside `outline`): proved in the section "the converse of the `Spec.judge` link, family by family" below (exact state
+--   `CleanState` after a clean prefix), and without a given position in `Props/C12Converse.lean` (`judge_flagged_rejected`,
+--   `glyph_start_rule_rejected`; what is still OPEN is listed there: `version`, `objlibs`, documents mixing finding rules and hard rules).
+--   Earlier note, kept:
 -- (was OPEN) legal_accepted for the whole grammar `Spec.flatten d` (any element order, comments anywhere, both versions).
 --   Kernel-checked instead (second phase, `Lemmas/C02.lean`, listed in the audit): acceptance element family by element
 --   family, each for ANY parser state at the right level (= any position of any document) and any spelling `shw` of the
